@@ -40,7 +40,7 @@ type op struct {
 	T       string `json:"t"`
 	S       *int   `json:"s,omitempty"`
 	M       *int   `json:"m,omitempty"`
-	Sel     []int  `json:"sel,omitempty"`
+	Sel     []int  `json:"sel"`
 	P       *int   `json:"p,omitempty"`
 	ID      any    `json:"id,omitempty"`
 	Payload *int   `json:"payload,omitempty"`
@@ -563,9 +563,9 @@ func (g *gen) issuedID(m int) int64 {
 }
 
 func run(c *hk.Ctx) {
-	nHist, minLen, maxLen := 6, 12, 40
+	nHist, minLen, maxLen := 60, 12, 45
 	if c.Thorough() {
-		nHist, minLen, maxLen = 60, 40, 120
+		nHist, minLen, maxLen = 1500, 30, 120
 	}
 	mk := map[string]func(start int64) backend{
 		"streamable": func(start int64) backend { return newStreamable(c, false, start) },
